@@ -419,7 +419,7 @@ pub fn rule_text(family: Family) -> &'static str {
         Family::C11 => "timeout t in 1..100 ticks (sometimes 1000..2500) or none, fail_on_timeout in {false,true} (also without any timeout), both mailbox kinds, messages whose handler duration is t-1, t+1, << t, >> t (never = t; up to 2600 ticks when no timeout is configured), split into 1-3 sleeps, with further messages queued behind; non-trivial = a completed and an abandoned invocation in the same run with a message handled after them; distinct = hash of the generated case",
         Family::C12 => "bounded(0..4) (and some unbounded) mailboxes, 1-4 clients sending through Addr, Sender, WeakSender mixed with forcing traffic (call, ping, interval, stop), handler durations 0..6 ticks, sometimes one message of 3000-9000 ticks (seconds of congestion) or a flood of 90 sends; oracle = at every send-return stamp the number of returned-but-not-taken-out messages is <= n; non-trivial = at least one send was really blocked (pending polls > 0) and later returned Ok; distinct = hash of the generated case",
         Family::C13 => "stream-attached actors (spawn_on_stream / builder, both mailbox kinds) on a harness-scripted stream (fed in bursts by client ops, ended or never-ending) with messages (also calls abandoned after their first poll), stop, drops; both outcomes of the select! tie-break are accepted; non-trivial = an item and a message handled in the same run and a termination while the stream was still pending; distinct = hash of the generated case",
-        Family::C14 => "histories that vary who awaits the address and when relative to the termination (never / before / after), termination cause (stop, ctx.stop, handler panic, started error, cancellation), handle queried (Addr, clones, WeakAddr), followed by sequential registry reactions (from_registry, register, try_from_registry); also the broker behind ctx.subscribe is stopped (awaited, or only watched through stopped()) and the actor subscribes again from a handler or from started after a restart; non-trivial = a liveness query, a registry reaction or a subscription after a termination that nobody awaited; distinct = hash of the generated case",
+        Family::C14 => "histories that vary who awaits the address and when relative to the termination (never / before / after), termination cause (stop, ctx.stop, handler panic, started error, cancellation), handle queried (Addr, clones, WeakAddr), followed by sequential registry reactions (from_registry, register, try_from_registry); also the broker behind ctx.subscribe is stopped (awaited, or only watched through stopped()) and the actor subscribes again from a handler or from started after a restart; non-trivial = a liveness query or a registry reaction after a termination that nobody awaited, or a subscription after the broker's termination; distinct = hash of the generated case",
         Family::C15 => "grants and conversion/drop programs (Addr methods and From impls alternately, weak handles exported from the actor's own context) leaving any non-empty combination of strong kinds {Addr, OwningAddr, Sender, Caller} alive (a second actor checks identity), default and recreate-from-default strategies, then ctx.stop/ctx.restart messages, client stops and awaits, interval timers judged per incarnation, upgrades of all weak kinds (also after termination); non-trivial = a context operation, a weak upgrade or a due tick was checked while no Addr/OwningAddr existed; distinct = hash of the generated case",
         Family::C16 => "actor trees up to depth 3 / 6 nodes built in started (add_child / register_child under two message types, some children also held outside, some with interval timers of their own), broadcasts through send_to_children followed by direct messages to children, root termination by stop, drop, ctx.stop, started Err/panic, handler panic, stopped panic, cancellation; non-trivial = depth >= 2 with a broadcast and a non-graceful parent end; distinct = hash of the generated case",
         Family::C17 => "owning spawns (spawn_owning, builder, default, on stream) with join, repeated joins, consume, consume_sync, detach, to_addr mixed with submissions from other clients and every termination cause incl. faults; non-trivial = a join racing with an in-flight submission of another client, or a second join; distinct = hash of the generated case",
